@@ -793,6 +793,78 @@ theorem platform_folded (N : Nat) (L : Doc) (P : Name) :
 
 /-! ### non-vacuity -/
 
+/-! ### explicit values — the empty list included — reach the stored description and survive the reload -/
+
+/-- the platform's override block wins over everything -/
+theorem override_option_wins (L : Doc) (P : Name) (c : Comp) (k : Name) (v : Tmpl)
+    (h : get? (ovrOpts c P) k = some v) : get? (layeredOpts L P c) k = some v := by
+  unfold layeredOpts
+  rw [get?_update, h]
+
+/-- **An option the component sets itself shadows every blueprint**, whatever its value: also when the value is
+the empty list and the blueprints give a non-empty one for the same path. -/
+theorem component_option_shadows_blueprints (L : Doc) (P : Name) (c : Comp) (k : Name) (v : Tmpl)
+    (h : get? c.opts k = some v) (ho : hasKey (ovrOpts c P) k = false) :
+    get? (layeredOpts L P c) k = some v := by
+  unfold layeredOpts
+  rw [get?_update, (get?_eq_none_iff _ k).mpr ho]
+  simp only
+  rw [get?_update, h]
+
+/-- **The stored description carries the explicit value verbatim** (`absent` and `present and empty` stay
+different on disk): the component written by `store_unreplicated_flowir_to_disk` has the entry `k ↦ v`. -/
+theorem explicit_option_is_stored (N : Nat) (L : Doc) (P : Name) (c : Comp) (k : Name) (v : Tmpl)
+    (hd : c.isDoc = false) (h : get? c.opts k = some v) (ho : hasKey (ovrOpts c P) k = false) :
+    get? (flatComp N L P c).opts k = some v := by
+  unfold flatComp
+  simp only [hd, Bool.false_eq_true, if_false]
+  exact component_option_shadows_blueprints L P c k v h ho
+
+private theorem find?_filter_same {α : Type} (p : α → Bool) : ∀ l : List α, (l.filter p).find? p = l.find? p
+  | [] => rfl
+  | a :: l => by
+    by_cases h : p a = true
+    · simp [List.filter_cons, h]
+    · have h' : p a = false := by simpa using h
+      simp [List.filter_cons, h', find?_filter_same p l]
+
+/-- the layered (pre-interpolation) option of the stored component, read back from the stored description for the
+same platform, is the explicit value again -/
+theorem explicit_option_read_back (N : Nat) (L : Doc) (P : Name) (c : Comp) (k : Name) (v : Tmpl)
+    (hd : c.isDoc = false) (h : get? c.opts k = some v) (ho : hasKey (ovrOpts c P) k = false) :
+    get? (layeredOpts (flatten N L P) P (flatComp N L P c)) k = some v := by
+  have hs := explicit_option_is_stored N L P c k v hd h ho
+  by_cases hov : hasKey (ovrOpts (flatComp N L P c) P) k = true
+  · -- the stored component keeps the override block of P; it does not mention k
+    have : ovrOpts (flatComp N L P c) P = ovrOpts c P := by
+      unfold flatComp ovrOpts
+      simp only [hd, Bool.false_eq_true, if_false]
+      rw [find?_filter_same]
+    rw [this, ho] at hov
+    cases hov
+  · have hov' : hasKey (ovrOpts (flatComp N L P c) P) k = false := by simpa using hov
+    exact component_option_shadows_blueprints (flatten N L P) P (flatComp N L P c) k v hs hov'
+
+/-- **… after any number of load+store cycles**: the description on disk after `n` further cycles still answers
+`k ↦ v` for the stored component (not the blueprint's value) -/
+theorem explicit_option_survives_cycles (N : Nat) (E : Exp) (hres : resolves N E.doc E.plat = true)
+    (c : Comp) (k : Name) (v : Tmpl)
+    (hd : c.isDoc = false) (h : get? c.opts k = some v) (ho : hasKey (ovrOpts c E.plat) k = false) (n : Nat) :
+    get? (layeredOpts (storeAfterCycles N E n) E.plat (flatComp N E.doc E.plat c)) k = some v := by
+  rw [store_load_cycles N E hres n]
+  exact explicit_option_read_back N E.doc E.plat c k v hd h ho
+
+/-- non-vacuity: a blueprint gives the list `[K]` for path 2, the component sets it to the EMPTY list `[]`
+(characters 91 `[`, 75 `K`, 93 `]`); stored and read back the component still says `[]` -/
+def exEmptyList : Doc :=
+  { vars := [(0, ⟨[], []⟩)], bps := [(0, ⟨[(2, [.ch 91, .ch 75, .ch 93])], []⟩)],
+    comps := [{ stage := 0, name := 1, isDoc := false, opts := [(2, [.ch 91, .ch 93])], vars := [], ovr := [] },
+              { stage := 0, name := 3, isDoc := false, opts := [], vars := [], ovr := [] }] }
+
+example : resolves 4 exEmptyList 0 = true := by decide
+example : (resolveAll 4 (flatten 4 exEmptyList 0) 0).map (fun r => get? r.opts 2)
+    = [some [.ch 91, .ch 93], some [.ch 91, .ch 75, .ch 93]] := by decide
+
 /-- platform 1 with a platform-global variable shadowing a default-stage one, chained references, a blueprint,
 a component with an override that redefines a variable from its raw form, and a `$import` entry -/
 def exDoc : Doc :=
